@@ -275,7 +275,7 @@ def run_ro(v, seed, iters, timeout=600):
     st = Symtab(v["lib"])
     rc, out = sh([v["ro_exe"], "ro", str(seed), str(iters)], timeout=timeout)
     res = {"stores": [], "diffs": [], "crashes": [], "summary": "", "rc": rc, "raw_tail": out[-1500:], "segments": [],
-           "parts": None, "parts_outside": [], "values": {}}
+           "parts": None, "parts_outside": [], "values": {}, "closure": {}, "closure_bad": []}
     seen = set()
     canary_store, canary_diff = set(), set()
     for line in out.split("\n"):
@@ -310,6 +310,19 @@ def run_ro(v, seed, iters, timeout=600):
             res["segments"].append(line[4:])
         elif line.startswith("PARTS "):
             res["parts"] = {k: int(x) for k, x in (kv.split("=") for kv in line.split()[1:])}
+        elif line.startswith("CLOSURE "):
+            kv = dict(x.split("=", 1) for x in line.split()[1:])
+            res["closure"][kv["when"]] = {"words_pointing_into_library": int(kv["words_pointing_into_library"]),
+                                          "words_pointing_to_writable_memory_outside(raw, dynamic linker slots included)": int(kv["words_pointing_to_writable_memory_outside"])}
+        elif line.startswith("PTRX "):
+            kv = dict(x.split("=", 1) for x in line.split()[1:])
+            off = int(kv["off"], 16)
+            sec = st.section_of(off)
+            if sec.startswith(".got"):      # GLOB_DAT slots of stdout/stderr etc.: the dynamic linker's, not a table of the library
+                res["closure"].setdefault("got_slots_ignored", set()).add(off)
+                continue
+            sym, inner = st.data_sym(off)
+            res["closure_bad"].append({"when": kv["when"], "symbol": sym, "offset_in_symbol": inner, "section": sec, "points_into": kv["target"]})
         elif line.startswith("PARTX "):
             res["parts_outside"].append(line[6:])
         elif line.startswith("VAL "):
@@ -317,6 +330,8 @@ def run_ro(v, seed, iters, timeout=600):
             res["values"][f[3]] = (int(f[1]), int(f[2]))
         elif line.startswith("RO "):
             res["summary"] = line
+    if "got_slots_ignored" in res["closure"]:
+        res["closure"]["got_slots_ignored"] = len(res["closure"]["got_slots_ignored"])
     allf = st.functions()
     res["funcs_all"] = len([n for n in allf.values() if n not in RUNTIME_FUNCS])
     miss = sorted((a, n) for a, n in allf.items() if a not in seen and n not in RUNTIME_FUNCS)
